@@ -11,7 +11,11 @@ Three layers (DESIGN.md §3 C10):
   ordering, `FragmentsGenerator.generate`, the set-fed import statements (operation modules,
   ClientForwardRefs, ShorterResults), `load_graphql_files_from_path`, and the reference semantics of
   isort's name ordering are compared with the real functions on generated inputs, directly and
-  through full generations.
+  through full generations.  Inside every full generation the set-fed emission points of the result
+  modules are observed too (the bases of every generated class against the set `fragments` it was built
+  from, every `_get_typename_values`, the fragment definitions appended to every operation string,
+  `TypeCollector.collect`), as is the order in which the configured plugins were loaded; the plugin
+  explorer + manager are also driven directly on scratch plugin modules whose hooks record their order.
 * FINDINGS: every witness in corpus/C10 is replayed on every run.
 """
 from __future__ import annotations
@@ -160,8 +164,14 @@ def wrap_type(rng: random.Random, t: str, allow_list: bool = True) -> str:
     return rng.choice([f"[{t}]", f"[{t}!]", f"[{t}!]!", f"[{t}]!"])
 
 
-def gen_case(rng: random.Random, size: int = 2, label: str = "rand") -> Dict[str, Any]:
-    """A valid (schema, operations, config) triple.  size 1..3 scales the number of types/fragments."""
+def gen_case(rng: random.Random, size: int = 2, label: str = "rand", directed: bool = False) -> Dict[str, Any]:
+    """A valid (schema, operations, config) triple.  size 1..3 scales the number of types/fragments.
+
+    `directed`: every unordered collection that feeds emitted order gets at least two (mostly three or more)
+    members in this case, and every ordered configuration list at least two entries whose order matters:
+    a FAMILY of fragments on one object (a base fragment, two or more fragments spreading it, all of them
+    spread side by side in one selection -> class bases, mixin imports, related fragments, topological sort),
+    and two or more plugins whose hooks do not commute (ShorterResults / ClientForwardRefs)."""
     nm = Names(rng)
     enums = [nm.fresh("enum") for _ in range(rng.randint(2, 2 + 2 * size))]
     scalars = [nm.fresh("type") for _ in range(rng.randint(1, 1 + size))]
@@ -254,8 +264,12 @@ def gen_case(rng: random.Random, size: int = 2, label: str = "rand") -> Dict[str
 
     frags: Dict[str, str] = {}  # name -> text
     frags_on: Dict[str, List[str]] = {t: [] for t in objs + ifaces + unions}
+    family_obj = rng.choice(objs) if (directed or rng.random() < 0.35) else None
+    family: List[str] = []
     for o in objs:
         k = rng.randint(0, 2 + 2 * size) if rng.random() < 0.8 else 0
+        if o == family_obj:
+            k = max(k, rng.randint(3, 5))
         names_o = [nm.fresh("frag") for _ in range(k)]
         # dependencies go from earlier to later index; names are random, so dependants sort before
         # their dependencies about half of the time
@@ -265,6 +279,8 @@ def gen_case(rng: random.Random, size: int = 2, label: str = "rand") -> Dict[str
             later = names_o[idx + 1 :]
             if later and rng.random() < 0.75:
                 sel += ["..." + d for d in rng.sample(later, min(len(later), rng.choice([1, 2, 2, 3, 4])))]
+            if o == family_obj and later and "..." + names_o[-1] not in sel and rng.random() < 0.85:
+                sel.append("..." + names_o[-1])  # the family: several fragments spreading one base fragment
             for n, _, t in obj_fields[o]:
                 if t in objs and rng.random() < 0.4:
                     if frags_on[t] and rng.random() < 0.7:
@@ -274,6 +290,8 @@ def gen_case(rng: random.Random, size: int = 2, label: str = "rand") -> Dict[str
             rng.shuffle(sel)
             frags[fname] = f"fragment {fname} on {o} {{ " + " ".join(sel) + " }"
         frags_on[o] = names_o
+        if o == family_obj:
+            family = names_o
     for i in ifaces:
         for _ in range(rng.randint(0, 2)):
             fname = nm.fresh("frag")
@@ -333,6 +351,19 @@ def gen_case(rng: random.Random, size: int = 2, label: str = "rand") -> Dict[str
     for n, _, t, args in mfields:
         opn = nm.fresh("op")
         ops.append(f"mutation {opn}($inp: {args[0][1]}) {{ {n}(inp: $inp) {{ {select(t)} }} }}")
+    if family_obj is not None and len(family) >= 3:
+        # the whole family side by side in one selection (twice: at the top and below a field when the object refers to itself)
+        n, _, t, args = next(q for q in qfields if q[2] == family_obj)
+        fam = rng.sample(family[:-1], rng.randint(2, len(family) - 1)) + [family[-1]]
+        sel = rng.sample(leaf_fields(family_obj), 1) + ["..." + d for d in fam]
+        for fn_, _, ft in obj_fields[family_obj]:
+            if ft == family_obj and rng.random() < 0.7:
+                sel.append(f"{fn_} {{ " + " ".join("..." + d for d in rng.sample(family, rng.randint(2, len(family)))) + " }")
+        rng.shuffle(sel)
+        opn = nm.fresh("op")
+        vars_ = ", ".join(f"${a}: {at}" for a, at in args)
+        call = ", ".join(f"{a}: ${a}" for a, _ in args)
+        ops.append(f"query {opn}" + (f"({vars_})" if args else "") + f" {{ {n}" + (f"({call})" if args else "") + " { " + " ".join(sel) + " } }")
     docs = list(frags.values()) + ops
     rng.shuffle(docs)
     if rng.random() < 0.3:
@@ -356,6 +387,9 @@ def gen_case(rng: random.Random, size: int = 2, label: str = "rand") -> Dict[str
     if rng.random() < 0.1:
         plugins.append(P_NOREIMP)
     rng.shuffle(plugins)
+    if directed:
+        plugins = [P_SHORT, P_FWD] + ([P_EXTRACT] if rng.random() < 0.4 else [])
+        rng.shuffle(plugins)
     if plugins:
         cfg["plugins"] = plugins
     for key, val, p in [("convert_to_snake_case", False, 0.25), ("include_all_inputs", False, 0.4), ("include_all_enums", False, 0.4),
@@ -363,7 +397,8 @@ def gen_case(rng: random.Random, size: int = 2, label: str = "rand") -> Dict[str
         if rng.random() < p:
             cfg[key] = val
     return {"id": label, "strategy": "client", "schema": schema, "queries": queries, "config": cfg,
-            "meta": {"fragments": len(frags), "operations": len(ops), "enums": len(enums), "objects": len(objs),
+            "meta": {"fragments": len(frags), "operations": len(ops), "enums": len(enums), "objects": len(objs), "directed": int(directed),
+                     "family": len(family) if family_obj is not None else 0, "plugins": len(plugins),
                      "union_members": max(len(m) for m in union_members.values()), "schema_files": len(schema) if isinstance(schema, dict) else 1,
                      "multi_dep_fragments": sum(1 for t in frags.values() if t.count("...") - t.count("... on") >= 2)}}
 
@@ -557,8 +592,26 @@ def classify(case: Dict[str, Any], a: Dict[str, str], b: Dict[str, str], phase: 
 def judge_matrix(ctx: Ctx, res: Result, cases: List[Dict[str, Any]], combos: List[Tuple[int, int]], label: str) -> Dict[str, str]:
     """Run the matrix and turn every disagreement into a Failure. Returns case id -> verdict."""
     verdict: Dict[str, str] = {}
-    out = run_matrix(cases, combos)
     ref = combos[0]
+    # the combos in batches of 8: as soon as one batch shows a deviation a concrete failing input is in hand and
+    # the remaining hash seeds add nothing (on a tree where the property holds every combo is run)
+    out: Dict[Tuple[int, int], Dict[str, Any]] = {}
+    for i in range(0, len(combos), 8):
+        out.update(run_matrix(cases, combos[i : i + 8]))
+
+        def deviates(cid: str) -> bool:
+            base0 = out[ref][cid].get("fresh")
+            for r in (out[c][cid] for c in combos if c in out):
+                for ph in ("fresh", "again"):
+                    if ph in r and not (r[ph] == base0 if "error" not in base0 else r[ph].get("error") == base0.get("error")):
+                        return True
+            return False
+
+        if any(deviates(case["id"]) for case in cases):
+            if i + 8 < len(combos):
+                ctx.log(f"{label}: deviation within the first {i + 8} of {len(combos)} (hash seed, creation order) combos; the rest is skipped")
+            break
+    combos = [c for c in combos if c in out]
     suspects: Dict[str, List[Tuple[Tuple[int, int], str]]] = {}
     for case in cases:
         cid = case["id"]
@@ -743,6 +796,23 @@ def corr_direct(ctx: Ctx, st: Optional[LeanStatus], res: Result) -> None:
         lines.append({"op": "rebuild", "top": top, "classNames": cls})
         expect.append(("rebuild", {"top": top, "classNames": cls}, obs))
         res.count("direct:rebuild:" + ("ok" if "ok" in obs else obs.get("err", "observer")))
+    try:
+        from ariadne_codegen.client_generators.result_fields import generate_typename_annotation
+    except (ImportError, AttributeError) as e:
+        res.mismatches.append(Mismatch("typenameLiteral", {}, f"observer: {e}", None))
+        generate_typename_annotation = None  # type: ignore[assignment]
+    for _ in range(ctx.budget(300, 3000) if generate_typename_annotation else 0):
+        vals = rng.sample(NAME_POOL, rng.randint(1, 6))
+
+        def lit() -> List[str]:
+            node = generate_typename_annotation(list(vals))
+            elts = node.slice.elts if isinstance(node.slice, ast.Tuple) else [node.slice]
+            return [e.id.strip('"') for e in elts]
+
+        obs = _observe(lit)
+        lines.append({"op": "typenameLiteral", "values": vals})
+        expect.append(("typenameLiteral", vals, obs.get("ok", obs)))
+        res.count("direct:typename-literal:" + ("1" if len(vals) == 1 else "2+"))
     _compare(ctx, st, res, lines, expect)
 
 
@@ -904,6 +974,100 @@ def corr_plugins(ctx: Ctx, st: Optional[LeanStatus], res: Result) -> None:
     _compare(ctx, st, res, lines, expect)
 
 
+PLUG_SRC = {
+    "c10_plug_a": (
+        "from ariadne_codegen.plugins.base import Plugin\n"
+        "class _Rec(Plugin):\n    pass\n"
+        "def _mk():\n"
+        "    def hook(self, obj, *a, **k):\n        return obj + [type(self).__module__ + '.' + type(self).__qualname__]\n"
+        "    return hook\n"
+        "for _n, _f in list(vars(Plugin).items()):\n"
+        "    if callable(_f) and not _n.startswith('_'):\n        setattr(_Rec, _n, _mk())\n"
+        "class Zeta(_Rec):\n    pass\n"
+        "class alpha(_Rec):\n    pass\n"
+        "class Mid(_Rec):\n    pass\n"
+        "class NotAPlugin:\n    pass\n"
+        "Beta = Zeta\n"
+        "VALUE = 3\n"
+    ),
+    "c10_plug_b": (
+        "from c10_plug_a import _Rec, Mid\n"
+        "class Omega(_Rec):\n    pass\n"
+        "class Aleph(_Rec):\n    pass\n"
+    ),
+}
+PLUG_POOL = ["c10_plug_a.Zeta", "c10_plug_a.alpha", "c10_plug_a.Mid", "c10_plug_a.Beta", "c10_plug_b.Omega", "c10_plug_b.Aleph", "c10_plug_b.Mid",
+             "c10_plug_a", "c10_plug_b", "c10_plug_a.NotAPlugin", "c10_plug_a.Missing", "c10_plug_a.VALUE", "no_such_module_c10.X", "nodots_c10"]
+
+
+@engine.with_scratch
+def _plugins_child(root: Path, trials: List[Tuple[List[str], str]]) -> List[Dict[str, Any]]:
+    """`get_plugins_types` -> `PluginManager` -> one hook, on scratch plugin modules whose classes record the
+    order in which they were applied"""
+    for name, src in PLUG_SRC.items():
+        (root / (name + ".py")).write_text(src)
+    sys.path.insert(0, str(root))
+    from graphql import build_schema
+
+    from ariadne_codegen.exceptions import PluginImportError
+    from ariadne_codegen.plugins.explorer import get_plugins_types
+    from ariadne_codegen.plugins.manager import PluginManager
+
+    schema = build_schema("type Query { a: Int }")
+    out = []
+    for strs, hook in trials:
+        table = plugin_resolve_table(strs)
+        try:
+            classes = get_plugins_types(list(strs))
+        except PluginImportError as e:
+            out.append({"resolve": table, "obs": {"err": "PluginImportError", "msg": str(e)}})
+            continue
+        pm = PluginManager(schema=schema, config_dict={}, plugins_types=classes)
+        applied = pm._apply_plugins_on_object(hook, [])
+        out.append({"resolve": table, "obs": {"ok": applied}, "loaded": [_qual(c) for c in classes], "instances": [_qual(type(p)) for p in pm.plugins]})
+    return out
+
+
+def corr_plugin_order(ctx: Ctx, st: Optional[LeanStatus], res: Result) -> None:
+    rng = ctx.sub_rng("plugin-order")
+    try:
+        from ariadne_codegen.plugins.base import Plugin
+
+        hooks = [n for n, f in vars(Plugin).items() if callable(f) and not n.startswith("_")]
+    except (ImportError, AttributeError) as e:
+        res.mismatches.append(Mismatch("runHook", {}, f"observer: {e}", None))
+        return
+    trials: List[Tuple[List[str], str]] = []
+    for _ in range(ctx.budget(150, 1500)):
+        good = rng.random() < 0.8
+        pool = PLUG_POOL[:9] if good else PLUG_POOL
+        trials.append(([rng.choice(pool) for _ in range(rng.randint(0, 5))], rng.choice(hooks)))
+    _quiet()
+    parts = [trials[i : i + 50] for i in range(0, len(trials), 50)]
+    outs = engine.pmap_forked(_plugins_child, [(p,) for p in parts], timeout=120)
+    lines: List[Dict[str, Any]] = []
+    expect: List[Tuple[str, Any, Any]] = []
+    for part, (status, val) in zip(parts, outs):
+        if status != "ok":
+            res.mismatches.append(Mismatch("runHook", {"trials": len(part)}, f"observer: {status} {str(val)[:300]}", None))
+            continue
+        for (strs, hook), r in zip(part, val):
+            inp = {"plugins": strs, "hook": hook}
+            lines.append({"op": "runHook", "plugins": strs, "resolve": r["resolve"]})
+            expect.append(("runHook", inp, r["obs"]))
+            if "ok" in r["obs"]:
+                lines.append({"op": "pluginsTypes", "plugins": strs, "resolve": r["resolve"]})
+                expect.append(("pluginsTypes", inp, {"ok": r["loaded"]}))
+                lines.append({"op": "applyHooks", "plugins": r["instances"]})
+                expect.append(("applyHooks", inp, r["obs"]["ok"]))
+                res.count("plugins:order:" + ("0" if not r["loaded"] else "1" if len(r["loaded"]) == 1 else "2+") + "-classes")
+                if any("module" in t[1] for t in r["resolve"]):
+                    res.count("plugins:order:from-module")
+            else:
+                res.count("plugins:order:refused")
+    _compare(ctx, st, res, lines, expect)
+
+
 def _walk_child(entries: List[Dict[str, Any]], order: List[int], where: str) -> Dict[str, Any]:
     root = Path(tempfile.mkdtemp(prefix=f"verif-c10-walk-{os.getpid()}-", dir=where))
     try:
@@ -995,6 +1159,32 @@ def corr_walk(ctx: Ctx, st: Optional[LeanStatus], res: Result) -> None:
 # --------------------------------------------------------------------------------------------
 
 
+def _qual(cls: Any) -> str:
+    return f"{cls.__module__}.{cls.__qualname__}"
+
+
+def plugin_resolve_table(strs: List[str]) -> List[List[Any]]:
+    """what the import system answers for each configured plugin string, asked through the explorer's own
+    helpers (wire form of Model/OrderResult.lean `PluginTarget`); the namespace of a module is listed in
+    dict order, `inspect.getmembers` is expected to sort it"""
+    import importlib
+
+    from ariadne_codegen.exceptions import PluginImportError
+    from ariadne_codegen.plugins import explorer
+
+    table: List[List[Any]] = []
+    for s_ in dict.fromkeys(strs):
+        if explorer.is_module_str(s_):
+            mod = importlib.import_module(s_)
+            table.append([s_, {"module": [[k, _qual(v)] for k, v in vars(mod).items() if explorer.is_plugin_type(v)]}])
+            continue
+        try:
+            table.append([s_, {"cls": _qual(explorer.get_plugin_type(s_))}])
+        except PluginImportError as e:
+            table.append([s_, {"refused": str(e)}])
+    return table
+
+
 @engine.with_scratch
 def _e2e_child(root: Path, case: Dict[str, Any]) -> Dict[str, Any]:
     os.chdir(root)
@@ -1007,7 +1197,67 @@ def _e2e_child(root: Path, case: Dict[str, Any]) -> Dict[str, Any]:
     rng = random.Random(case["id"])
     schema_path = c10_sub.write_tree(root, case["schema"], "schema.graphql", rng)
     queries_path = c10_sub.write_tree(root, case.get("queries"), "queries.graphql", rng)
-    rec: Dict[str, Any] = {"frag_gens": [], "op_gens": []}
+    rec: Dict[str, Any] = {"frag_gens": [], "op_gens": [], "bases": [], "typenames": [], "opfrags": []}
+    import inspect
+
+    from graphql import FragmentDefinitionNode, is_abstract_type
+    from graphql import parse as gql_parse
+
+    ptd_sig = inspect.signature(ResultTypesGenerator._parse_type_definition)
+
+    class Observed(ResultTypesGenerator):
+        """records, without re-implementing them, the set-fed emission points inside one result module:
+        the set `fragments` each class was built from (in the order this interpreter iterates it) and the
+        bases that came out; the inputs and the result of every `_get_typename_values`"""
+
+        def __init__(self, *a: Any, **k: Any) -> None:
+            self._c10_frames: List[Dict[str, Any]] = []
+            self._c10_depth = 0
+            super().__init__(*a, **k)
+
+        def _parse_type_definition(self, *a: Any, **k: Any) -> Any:
+            b = ptd_sig.bind(self, *a, **k).arguments
+            frame = {"class": b.get("class_name"), "extra": list(b.get("extra_bases") or []), "fragments": None}
+            self._c10_frames.append(frame)
+            try:
+                out = super()._parse_type_definition(*a, **k)
+            finally:
+                self._c10_frames.pop()
+            if out and frame["fragments"] is not None and isinstance(out[0], ast.ClassDef) and out[0].name == frame["class"]:
+                rec["bases"].append({"gen": self._operation_name, "class": frame["class"], "fragments": frame["fragments"], "extra": frame["extra"],
+                                     "bases": [ast.unparse(x) for x in out[0].bases]})
+            return out
+
+        def _resolve_selection_set(self, *a: Any, **k: Any) -> Any:
+            self._c10_depth += 1
+            try:
+                r = super()._resolve_selection_set(*a, **k)
+            finally:
+                self._c10_depth -= 1
+            if self._c10_depth == 0 and self._c10_frames and self._c10_frames[-1]["fragments"] is None:
+                self._c10_frames[-1]["fragments"] = list(r[1])
+            return r
+
+        def _get_typename_values(self, field_context: Any) -> Any:
+            out = super()._get_typename_values(field_context)
+            names = [rc.type_name for rc in field_context.related_classes]
+            abstract = next((n for n in names if is_abstract_type(self.schema.type_map[n])), None)
+            possible = [t.name for t in self.schema.get_possible_types(self.schema.type_map[abstract])] if abstract else []
+            rec["typenames"].append({"gen": self._operation_name, "typesNames": names, "abstract": abstract, "possible": possible,
+                                     "values": [[k2, list(v)] for k2, v in out.items()]})
+            return out
+
+        def get_operation_as_str(self) -> str:
+            text = super().get_operation_as_str()
+            try:
+                names = [d.name.value for d in gql_parse(text).definitions if isinstance(d, FragmentDefinitionNode)]
+            except Exception:  # noqa: BLE001 - a plugin rewrote the text into something else: nothing to compare
+                return text
+            mixins = list(self._fragments_used_as_mixins)
+            rec["opfrags"].append({"gen": self._operation_name, "mixins": mixins, "unpacked": list(self._unpacked_fragments),
+                                   "closure": [[f, list(self._get_fragments_names(self.fragments_definitions[f].selection_set))] for f in mixins],
+                                   "emitted": names})
+            return text
 
     def imp(node: ast.ImportFrom) -> Dict[str, Any]:
         return {"level": node.level, "module": node.module or "", "names": [a.name for a in node.names]}
@@ -1017,12 +1267,12 @@ def _e2e_child(root: Path, case: Dict[str, Any]) -> Dict[str, Any]:
                 "publicNames": list(g.get_generated_public_names()), "usedEnums": list(g.get_used_enums()),
                 "mixins": sorted(g.get_fragments_used_as_mixins())}
 
-    class FragRec(ResultTypesGenerator):  # observes the generators FragmentsGenerator.generate really builds
+    class FragRec(Observed):  # observes the generators FragmentsGenerator.generate really builds
         def __init__(self, *a: Any, **k: Any) -> None:
             super().__init__(*a, **k)
             rec["frag_gens"].append(self)
 
-    class OpRec(ResultTypesGenerator):
+    class OpRec(Observed):
         def __init__(self, *a: Any, **k: Any) -> None:
             super().__init__(*a, **k)
             rec["op_gens"].append({"name": self._operation_name, "imports": [imp(i) for i in self._imports],
@@ -1099,6 +1349,21 @@ def _e2e_child(root: Path, case: Dict[str, Any]) -> Dict[str, Any]:
                                           and isinstance(n.value.func, ast.Attribute) and isinstance(n.value.func.value, ast.Name)]}
     out["files"] = files
     out["fragments_module"] = cfg.get("fragments_module_name", "fragments")
+    out["bases"], out["typenames"], out["opfrags"] = rec["bases"], rec["typenames"], rec["opfrags"]
+    if pg is not None:
+        from ariadne_codegen.client_generators.constants import BASE_MODEL_CLASS_NAME
+
+        out["base_model"] = BASE_MODEL_CLASS_NAME
+        pm = getattr(pg, "plugin_manager", None)
+        strs = list(cfg.get("plugins") or [])
+        out["plugins"] = {"configured": strs, "resolve": plugin_resolve_table(strs),
+                          "loaded": [_qual(type(p)) for p in (pm.plugins if pm is not None else [])]}
+        if cfg.get("enable_custom_operations"):
+            from ariadne_codegen.client_generators.custom_generator_utils import TypeCollector
+
+            tc = TypeCollector(pg.schema)
+            got = tc.collect()
+            out["collected"] = {"listing": list(tc.collected_types), "sorted": got}
     if pg is not None and outcome.get("ok"):
         out["package"] = {"unpacked": list(pg._unpacked_fragments), "used_enums": list(pg._used_enums), "include_all_enums": bool(pg.include_all_enums),
                           "schema_enums": [c.name for c in pg.enums_generator._class_defs],
@@ -1177,6 +1442,30 @@ def corr_e2e(ctx: Ctx, st: Optional[LeanStatus], res: Result, cases: List[Dict[s
             lines.append({"op": "filterEnums", "schemaEnums": pk["schema_enums"], "used": None if pk["include_all_enums"] else pk["used_enums"]})
             expect.append(("enums-kept", dict(inp_ref, include_all=pk["include_all_enums"]), val["files"].get(pk["enums_module"] + ".py", {}).get("classes", [])))
             res.count("e2e:enums-filtered" if not pk["include_all_enums"] else "e2e:enums-all")
+        pasc = [[k, v] for k, v in (val.get("pascal") or {}).items()]
+        for b in val.get("bases") or []:
+            lines.append({"op": "classBases", "fragments": b["fragments"], "extraBases": b["extra"], "pascal": pasc, "baseModel": val.get("base_model", "BaseModel")})
+            expect.append(("classBases", dict(inp_ref, gen=b["gen"], cls=b["class"], fragments=sorted(b["fragments"]), extra=b["extra"]), b["bases"]))
+            res.count("e2e:class-bases:" + ("0" if not b["fragments"] else "1" if len(b["fragments"]) == 1 else "2" if len(b["fragments"]) == 2 else "3+") + "-fragments")
+        for t in val.get("typenames") or []:
+            own = dict((k, v) for k, v in t["values"])
+            extra = (own.get(t["abstract"]) or [None])[1:] if t["abstract"] else []
+            lines.append({"op": "typenameValues", "typesNames": t["typesNames"], "abstract": t["abstract"], "possible": t["possible"], "order": extra})
+            expect.append(("typenameValues", dict(inp_ref, gen=t["gen"], typesNames=t["typesNames"], abstract=t["abstract"], possible=t["possible"]), t["values"]))
+            res.count("e2e:typename-values:" + ("no-abstract" if not t["abstract"] else "0" if not extra else "1" if len(extra) == 1 else "2+") + ("" if not t["abstract"] else "-without-class"))
+        for o in val.get("opfrags") or []:
+            lines.append({"op": "operationFragments", "mixins": o["mixins"], "unpacked": o["unpacked"], "closure": o["closure"]})
+            expect.append(("operationFragments", dict(inp_ref, gen=o["gen"], mixins=sorted(o["mixins"]), unpacked=sorted(o["unpacked"])), {"ok": o["emitted"]}))
+            res.count("e2e:operation-string:" + ("0" if not o["emitted"] else "1" if len(o["emitted"]) == 1 else "2+") + "-fragments")
+        pl = val.get("plugins")
+        if pl is not None and val["outcome"].get("ok"):
+            lines.append({"op": "pluginsTypes", "plugins": pl["configured"], "resolve": pl["resolve"]})
+            expect.append(("pluginsLoaded", dict(inp_ref, configured=pl["configured"]), {"ok": pl["loaded"]}))
+            res.count("e2e:plugins:" + ("0" if not pl["loaded"] else "1" if len(pl["loaded"]) == 1 else "2+"))
+        if val.get("collected") is not None:
+            lines.append({"op": "collectedTypes", "collected": val["collected"]["listing"]})
+            expect.append(("collectedTypes", dict(inp_ref, n=len(val["collected"]["listing"])), val["collected"]["sorted"]))
+            res.count("e2e:type-collector")
         for op in val.get("ops", []):
             if not val["outcome"].get("ok"):
                 break
@@ -1238,6 +1527,111 @@ def audit_fs(res: Result) -> None:
 
 
 # --------------------------------------------------------------------------------------------
+# static audit: the inventory of unordered collections (the model's claim "these are ALL the places
+# where a set or a directory listing exists in the generator"); a construct that appears anywhere else,
+# or a modelled function that gains / loses one, breaks the tie and sends the run to the directed search
+# --------------------------------------------------------------------------------------------
+
+SET_METHODS = {"union", "difference", "intersection", "symmetric_difference"}
+LISTING_CALLS = {"listdir", "scandir", "glob", "rglob", "iterdir", "walk"}
+EXPECTED_UNORDERED = {
+    "ariadne_codegen/client_generators/client.py::ClientGenerator.get_variable_names": ["set()"],
+    "ariadne_codegen/client_generators/custom_fields.py::CustomFieldsGenerator._generate_class_def_body": ["set()"],
+    "ariadne_codegen/client_generators/custom_generator_utils.py::TypeCollector.__init__": ["set()", "set()"],
+    "ariadne_codegen/client_generators/fragments.py::FragmentsGenerator.__init__": ["set()"],
+    "ariadne_codegen/client_generators/fragments.py::FragmentsGenerator.generate": ["set()"],
+    "ariadne_codegen/client_generators/fragments.py::FragmentsGenerator._get_sorted_fragments_names": ["set()"],
+    "ariadne_codegen/client_generators/input_types.py::InputTypesGenerator._filter_class_defs": ["set()"],
+    "ariadne_codegen/client_generators/input_types.py::InputTypesGenerator._get_dependencies_of_type": ["set()"],
+    "ariadne_codegen/client_generators/package.py::PackageGenerator.__init__": ["set()"],
+    "ariadne_codegen/client_generators/package.py::PackageGenerator.add_operation": [".union"],
+    "ariadne_codegen/client_generators/package.py::PackageGenerator._validate_unique_file_names": ["set()", "set()", "{comprehension}"],
+    "ariadne_codegen/client_generators/package.py::PackageGenerator._generate_fragments": [".difference", "set()"],
+    "ariadne_codegen/client_generators/result_fields.py::parse_interface_type": ["{comprehension}"],
+    "ariadne_codegen/client_generators/result_types.py::ResultTypesGenerator.__init__": ["set()", "set()"],
+    "ariadne_codegen/client_generators/result_types.py::ResultTypesGenerator._resolve_selection_set": [".union", ".union", ".union", "set()", "set()"],
+    "ariadne_codegen/client_generators/result_types.py::ResultTypesGenerator._get_inline_fragment_root_type": ["{comprehension}"],
+    "ariadne_codegen/client_generators/result_types.py::ResultTypesGenerator._add_typename_field_to_selections": ["{comprehension}"],
+    "ariadne_codegen/client_generators/result_types.py::ResultTypesGenerator._get_typename_values": ["set()", "set()"],
+    "ariadne_codegen/client_generators/result_types.py::ResultTypesGenerator._get_all_related_fragments": [".union", ".union"],
+    "ariadne_codegen/client_generators/result_types.py::ResultTypesGenerator._get_fragments_names": [".union", ".union", "set()"],
+    "ariadne_codegen/config.py::get_client_settings": [".difference", "{comprehension}"],
+    "ariadne_codegen/config.py::get_graphql_schema_settings": [".difference", "{comprehension}"],
+    "ariadne_codegen/contrib/client_forward_refs.py::ClientForwardRefsPlugin.__init__": ["set()", "set()"],
+    "ariadne_codegen/contrib/client_forward_refs.py::ClientForwardRefsPlugin._update_imports": ["set()"],
+    "ariadne_codegen/contrib/shorter_results.py::ShorterResultsPlugin._update_imports": ["set()"],
+    "ariadne_codegen/schema.py::walk_graphql_files": ["listing.glob"],
+    "ariadne_codegen/schema.py::add_mixin_directive_to_schema": ["{comprehension}"],
+    "ariadne_codegen/utils.py::process_name": ["set()", "{literal}"],
+}
+
+
+def unordered_inventory() -> Any:
+    """function -> sorted kinds of set constructions / directory listings in its body (the runtime files under
+    client_generators/dependencies are copied verbatim into the package and take no part in generation)"""
+    out: Dict[str, List[str]] = {}
+    try:
+        files = sorted((common.REPO / "ariadne_codegen").rglob("*.py"))
+    except OSError as e:
+        return f"unreadable: {e}"
+    for p in files:
+        rel = p.relative_to(common.REPO).as_posix()
+        if "/dependencies/" in rel:
+            continue
+        try:
+            tree = ast.parse(p.read_text())
+        except (OSError, SyntaxError) as e:
+            return f"unreadable: {rel}: {e}"
+
+        def walk(node: ast.AST, qual: str) -> None:
+            for ch in ast.iter_child_nodes(node):
+                q = qual
+                if isinstance(ch, (ast.ClassDef, ast.FunctionDef, ast.AsyncFunctionDef)):
+                    q = (qual + "." if qual else "") + ch.name
+                kind = None
+                if isinstance(ch, ast.Call):
+                    if isinstance(ch.func, ast.Name) and ch.func.id in ("set", "frozenset"):
+                        kind = ch.func.id + "()"
+                    elif isinstance(ch.func, ast.Attribute) and ch.func.attr in SET_METHODS:
+                        kind = "." + ch.func.attr
+                    elif isinstance(ch.func, ast.Attribute) and ch.func.attr in LISTING_CALLS:
+                        kind = "listing." + ch.func.attr
+                elif isinstance(ch, ast.SetComp):
+                    kind = "{comprehension}"
+                elif isinstance(ch, ast.Set):
+                    kind = "{literal}"
+                if kind:
+                    out.setdefault(rel + "::" + (qual or "<module>"), []).append(kind)
+                walk(ch, q)
+
+        walk(tree, "")
+    return {k: sorted(v) for k, v in out.items()}
+
+
+def audit_unordered(res: Result) -> None:
+    got = unordered_inventory()
+    res.seen(["unordered-inventory"], nontrivial=False)
+    if not isinstance(got, dict):
+        res.mismatches.append(Mismatch("unordered-collection-inventory", "ariadne_codegen", got, "readable"))
+        return
+    for k in sorted(set(got) | set(EXPECTED_UNORDERED)):
+        have, want = list(got.get(k, [])), list(EXPECTED_UNORDERED.get(k, []))
+        if have == want:
+            continue
+        extra = list(have)
+        for x in want:
+            if x in extra:
+                extra.remove(x)
+        if extra:  # a NEW unordered collection: outside the model until shown otherwise
+            res.mismatches.append(Mismatch("unordered-collection-inventory", k, have, want))
+        else:  # one fewer: cannot add a dependence on iteration order
+            res.count("audit:unordered-collections-removed")
+    res.count("audit:functions-with-unordered-collections", len(got))
+    gs = [k for k in got if k.startswith("ariadne_codegen/graphql_schema_generators/")]
+    res.count("audit:graphqlschema-generators-unordered-collections", len(gs))
+
+
+# --------------------------------------------------------------------------------------------
 # run / search / replay
 # --------------------------------------------------------------------------------------------
 
@@ -1252,6 +1646,12 @@ FINGERPRINTS = [
     ("ariadne_codegen/client_generators/result_types.py", "ResultTypesGenerator._get_all_related_fragments"),
     ("ariadne_codegen/client_generators/result_types.py", "ResultTypesGenerator._parse_type_definition"),
     ("ariadne_codegen/client_generators/result_fields.py", "generate_typename_annotation"),
+    ("ariadne_codegen/client_generators/result_types.py", "ResultTypesGenerator._resolve_selection_set"),
+    ("ariadne_codegen/client_generators/result_types.py", "ResultTypesGenerator._get_fragments_names"),
+    ("ariadne_codegen/plugins/explorer.py", "get_plugins_types"),
+    ("ariadne_codegen/plugins/explorer.py", "get_plugins_types_from_module"),
+    ("ariadne_codegen/plugins/manager.py", "PluginManager.__init__"),
+    ("ariadne_codegen/plugins/manager.py", "PluginManager._apply_plugins_on_object"),
     ("ariadne_codegen/client_generators/package.py", "PackageGenerator.generate"),
     ("ariadne_codegen/client_generators/package.py", "PackageGenerator._generate_fragments"),
     ("ariadne_codegen/client_generators/package.py", "PackageGenerator._generate_enums"),
@@ -1277,7 +1677,7 @@ def make_cases(ctx: Ctx, label: str, n: int) -> List[Dict[str, Any]]:
     while len(out) < n and tries < n * 30:
         tries += 1
         size = rng.choice([1, 2, 2, 3])
-        c = gen_case(random.Random(rng.random()), size, f"{label}{len(out)}")
+        c = gen_case(random.Random(rng.random()), size, f"{label}{len(out)}", directed=len(out) % 3 == 0)
         if valid_case(c):
             out.append(c)
     if len(out) < n:
@@ -1293,6 +1693,10 @@ def oracle(ctx: Ctx, res: Result, label: str = "oracle", n_seeds: Optional[int] 
             res.distribution[f"{label}:max:{k}"] = max(res.distribution.get(f"{label}:max:{k}", 0), v)
         if c["meta"]["multi_dep_fragments"]:
             res.count(f"{label}:cases-with-multi-dependency-fragments")
+        if c["meta"]["family"] >= 3:
+            res.count(f"{label}:cases-with-fragment-family")
+        if c["meta"]["plugins"] >= 2:
+            res.count(f"{label}:cases-with-2+-plugins")
         for p in (c["config"].get("plugins") or []):
             res.count(f"{label}:plugin:" + p.rsplit(".", 1)[1])
         res.count(f"{label}:comments:" + c["config"]["include_comments"])
@@ -1316,11 +1720,13 @@ def run(ctx: Ctx, st: Optional[LeanStatus]) -> Result:
                 "a case is non-trivial when it generates; correspondence inputs are distinct (observation, input) pairs")
     res.extra["fingerprints"] = common.fingerprints(ctx, FINGERPRINTS)
     audit_fs(res)
+    audit_unordered(res)
     replay_corpus(ctx, res, list(range(8)))
     ctx.log(f"corpus replayed: {res.witness_status}")
     corr_direct(ctx, st, res)
     corr_isort(ctx, st, res)
     corr_plugins(ctx, st, res)
+    corr_plugin_order(ctx, st, res)
     corr_walk(ctx, st, res)
     ctx.log(f"direct correspondence done ({res.evaluations} evaluations, {len(res.mismatches)} mismatches)")
     e2e_cases = make_cases(ctx, "e2e", ctx.budget(24, 160))
@@ -1333,7 +1739,12 @@ def run(ctx: Ctx, st: Optional[LeanStatus]) -> Result:
         "that CPython's set iteration order is SOME permutation of the elements and that nothing else varies between interpreter runs "
         "(validated by subprocess runs under different PYTHONHASHSEEDs, not proved)",
         "autoflake / black / the statement-level layout of isort: abstract deterministic `render` in the Lean model; validated end to end by the sha256 oracle",
-        "graphqlschema strategy (.py and .graphql targets): oracle only (no set or directory listing feeds it besides the shared file loader)",
+        "graphqlschema strategy (.py and .graphql targets): the run is modelled as a pipeline (graphqlschema_deterministic) whose schema building, validation and "
+        "rendering are abstract deterministic functions; that no set or directory listing exists under graphql_schema_generators/ is audited statically on every run, "
+        "the bytes are decided by the sha256 oracle",
+        "inside a result module only the order-relevant steps are modelled (sorted-of-set, set difference, union then sorted): WHICH fragments end up in the set of a class, "
+        "the closure _get_fragments_names and the possible types of an abstract type are recorded from the real generator, not modelled",
+        "what each plugin hook does: an abstract function per plugin class; only the order of loading and of application is modelled (and observed on the real explorer/manager)",
     ]
     res.assumptions += [
         "isort.code with the default configuration orders the names of one from-import by the key modelled in Spec/Isort.lean (stable, de-duplicated); checked against isort on every run",
